@@ -563,6 +563,7 @@ def main():
 
     setup_SIGINT()
 
+    too_large = None
     try:
 
         cli(sys.argv, mode='output')
@@ -588,9 +589,14 @@ def main():
         sys.exit(-1)
 
     except (OverflowError, MemoryError, RecursionError) as e:
-        # sizes beyond what the machine (or python) can handle
+        # sizes beyond what the machine (or python) can handle: the
+        # report is written once the exception, and the memory that
+        # it keeps alive, are gone
+        too_large = type(e).__name__
+
+    if too_large is not None:
         error_msg("ERROR: the request is too large to be served ({})".format(
-            type(e).__name__))
+            too_large))
         sys.exit(-1)
 
     # avoid signaling BrokenPipeError as whatnot
